@@ -167,15 +167,24 @@ def one(ctx, drv, i, prof, case):
     in_ids = {id(c) for c in containers(doc).values()}
     rcont = containers(res)
     shared_model = 0
+    # a `copy` default setter and the `c_wrap` coercer hand out / embed an object of the document itself;
+    # the model allocates the results of callables wholesale, so the reverse direction is checked without them
+    txt = repr(jcase.get('schema')) + repr(jcase.get('cfg'))
+    reverse = 'copy' not in txt and 'c_wrap' not in txt
+    ctx.dist('sharing_checked_both_ways', reverse)
     for p, is_shared in rep['shared']:
         path = tuple(codec.dec_key(k) for k in p)
+        obj = rcont.get(path)
         if is_shared:
             shared_model += 1
-            obj = rcont.get(path)
             if obj is None or id(obj) not in in_ids:
                 ctx.port_mismatch('alias', jcase, {'path': repr(path), 'model': 'shared with input'}, 'not the input object',
                                   'sharing map differs')
                 break
+        elif reverse and obj is not None and id(obj) in in_ids and not (isinstance(obj, tuple) and not obj):
+            ctx.port_mismatch('alias', jcase, {'path': repr(path), 'model': 'a new object'}, 'an object of the input document',
+                              'sharing map differs: the real result holds an input object where the model allocates')
+            break
     changed = rdoc != codec.canon_val(case['doc'])
     ctx.count('alias', key=repr(jcase), nontrivial=changed,
               sample={'schema': repr(case['schema'])[:300], 'doc': repr(case['doc'])[:200], 'result': repr(res)[:200]})
